@@ -63,14 +63,22 @@ ARITY = [T('dd._utils.assert_operator_arity', variant=o, args={'op': 'op:' + o, 
          for o in sorted({sp for cls in SPELLINGS.values() for sp in cls}) + ['nonsense']]
 EXTREF = [T(B + 'incref', B + 'incref!external', variant='external'), T(B + 'decref', B + 'decref!external', variant='external')]
 
+M2L = [T(B + '_map_to_level', B + '_map_to_level:set', variant='set', args={'d': 'set:name'}),
+       T(B + '_map_to_level', B + '_map_to_level:dict', variant='dict', args={'d': 'dict:name->bool'})]
+
+IMAGE = [T('dd.bdd._image', variant='image', args={'umap': 'dict:int->int', 'vmap': 'none'}),
+         T('dd.bdd._image', variant='preimage', args={'umap': 'none', 'vmap': 'dict:int->int'}),
+         T('dd.bdd._image_root', variant='image', args={'umap': 'dict:int->int', 'vmap': 'none'}),
+         T('dd.bdd._image_root', variant='preimage', args={'umap': 'none', 'vmap': 'dict:int->int'})]
+
 TARGETS = {
     'C01': CORE + apply_targets(['not', 'and', 'or', 'xor', 'implies', 'equiv', 'diff', 'ite']) + AOPS
     + [T(ABD + 'ite')] + aapply_targets(['~', 'and', '\\/', '#', '=>', '<->', '-', 'ite']) + ARITY,
     'C02': [T(B + 'find_or_add'), T(B + '_ite'), T(B + '_init_terminal'), T(B + 'add_var'), T(B + 'declare'), T(B + 'incref'), T(B + 'decref'),
             T(B + 'var', B + 'var!body')] + GC,
-    'C03': [T(B + '_quantify'), T(B + 'quantify', B + 'quantify!body'), T(B + 'forall'), T(B + 'exist')] + apply_targets(['forall', 'exists'])
+    'C03': M2L[:1] + [T(B + '_quantify'), T(B + 'quantify', B + 'quantify!body'), T(B + 'forall'), T(B + 'exist')] + apply_targets(['forall', 'exists'])
     + [T(ABD + 'quantify'), T(ABD + 'forall'), T(ABD + 'exist')] + aapply_targets(['\\A', 'exists']),
-    'C04': [T(B + '_cofactor'), T(B + '_compose'), T(B + '_vector_compose'),
+    'C04': M2L[1:] + [T(B + '_cofactor'), T(B + '_compose'), T(B + '_vector_compose'),
             T('dd.bdd._copy_bdd', variant='same-manager', alias={'old_bdd': 'bdd'}), T('dd.bdd.rename'),
             T(B + 'rename', B + 'rename!body'), T(B + 'cofactor', B + 'cofactor!body'),
             T(B + 'compose', B + 'compose!body:one', variant='one-variable'),
@@ -91,11 +99,12 @@ TARGETS = {
     'C11': [T('dd.bdd._copy_bdd', variant='two-managers'), T('dd.bdd.copy_bdd', variant='two-managers'),
             T('dd.bdd.copy_bdd', variant='same-manager', alias={'from_bdd': 'to_bdd'}), T(B + 'copy', variant='two-managers')],
     'C12': [T(B + '_load')],
+    'C13': IMAGE,
     'C14': [T(B + 'add_var'), T(B + '_check_var'), T(B + '_next_free_level'), T(B + '_init_terminal'), T(B + 'declare'),
             T(B + 'var_at_level'), T(B + 'level_of_var'), T(B + 'var_levels'), T(B + 'var', B + 'var!body')],
     'C17': [T(B + 'find_or_add'), T(B + 'add_var'), T(B + '_check_var'), T(B + '_next_free_level'), T(B + 'var_at_level'),
             T(B + 'level_of_var'), T(B + 'var', B + 'var!body'), T('dd.bdd.rename'), T(B + '_next_free_int')]
     + apply_targets(['not', 'and', 'ite', 'forall']) + PLUMBING[1:]
-    + [T(AF + '__init__'), T(ABD + '_wrap'), T(ABD + '_add_int'), T(ABD + 'var'), T(ABD + 'ite'), T(ABD + 'quantify')] + aapply_targets(['!', '||', 'ite']) + ARITY + [T(ABD + '__contains__'), T(B + '_add_int')],
+    + [T(AF + '__init__'), T(ABD + '_wrap'), T(ABD + '_add_int'), T(ABD + 'var'), T(ABD + 'ite'), T(ABD + 'quantify')] + aapply_targets(['!', '||', 'ite']) + ARITY + [T(ABD + '__contains__'), T(B + '_add_int')] + M2L,
     'C18': [T(B + 'succ')] + AVIEWS + [T(B + '_descendants'), T(B + 'descendants')],
 }
